@@ -20,6 +20,7 @@ type bodyCtx struct {
 	seq    int
 	used   map[string]bool // every local name ever declared in this method (never re-declared, not even after its block ended)
 	static bool
+	noAnon bool // no anonymous class bodies here (field initialisers: what the tool records for them is outside C02's statement)
 }
 
 func (b *bodyCtx) lookup(name string) *varInfo {
@@ -46,6 +47,23 @@ func (b *bodyCtx) visible() []*varInfo {
 }
 
 func (g *genCtx) bodies(ti *typeInfo) {
+	if g.o.FieldInitCalls && ti.Decl.Kind == "Class" {
+		// field initialisers that are calls: only fields declared earlier are in scope
+		b := &bodyCtx{g: g, ti: ti, noAnon: true}
+		for _, mem := range ti.Decl.Members {
+			f, ok := mem.(*Field)
+			if !ok {
+				continue
+			}
+			mods := strings.Join(f.Modifiers, " ")
+			if !strings.Contains(mods, "static") && !strings.Contains(f.Type, "[") && g.r.Chance(1, 3) {
+				f.Init = b.call(2)
+			}
+			if !strings.Contains(mods, "static") {
+				b.scope = append(b.scope, &varInfo{Name: f.Name, Type: f.Type, Kind: "field", Final: strings.Contains(mods, "final")})
+			}
+		}
+	}
 	for _, m := range ti.Decl.Methods() {
 		if m.NoBody {
 			continue
@@ -283,9 +301,13 @@ func (b *bodyCtx) newExpr(depth int, ty string) *Expr {
 	}
 	b.sites++
 	e := &Expr{Kind: "new", Site: &Site{Kind: "new", Name: name, Recv: RecvNew}}
+	if b.g.o.Generics && r.Chance(1, 6) {
+		// the created type is the name in front of the type arguments, whatever they contain
+		e.TypeArgs = r.Pick([]string{"<>", "<String>", "<Map.Entry<String, Integer>>", "<String, java.util.Date>", "<java.util.List<String>>", "<Outer.Inner>", "<? extends java.lang.Number>"})
+	}
 	e.Args = b.args(depth + 1)
 	e.Site.NArgs = len(e.Args)
-	if b.g.o.AnonClasses && r.Chance(1, 5) {
+	if b.g.o.AnonClasses && !b.noAnon && r.Chance(1, 5) {
 		// an anonymous subclass: its members are declarations, not calls of the enclosing method
 		e.AnonBody = r.Pick([]string{
 			" { public void run() { } }",
